@@ -199,6 +199,7 @@ func main() {
 	run("Facts", func() { genFacts(repo, outdir) })
 	run("Action", func() { genAction(repo, outdir) })
 	run("Driver", func() { genDriver(repo, outdir) })
+	run("TsDriver", func() { genTsDriver(repo, outdir) })
 	if failed {
 		os.Exit(1)
 	}
